@@ -247,6 +247,11 @@ func postDirect(seed uint64, tier string, args []string, w *bufio.Writer) {
 		fails++
 		fmt.Fprintf(w, "DIRECT-FAIL key=post.%s mode=counters\n", why)
 	}
+	// goroutines that keep posting while the loop goroutine closes the IO context
+	if ok, why := postWhileClosingIO(40); !ok {
+		fails++
+		fmt.Fprintf(w, "DIRECT-FAIL key=post.%s mode=post-while-closing-io\n", why)
+	}
 	// IO.Close with handlers still queued: whatever Close does with them, none runs off the loop goroutine or out of order
 	if ok, why := postCloseWithQueued(); !ok {
 		fails++
@@ -700,6 +705,64 @@ func postWhileArming(posters int, d time.Duration) (bool, string, int) {
 // postCloseWithQueued: (1) the loop goroutine is inside a posted handler, another handler is queued, a third goroutine closes
 // the IO context: the queued handler must not run on that goroutine; (2) a posted handler posts another one and closes the
 // IO context with two earlier posts still waiting in its batch: the later post must not overtake them.
+// postWhileClosingIO: goroutines keep posting while the loop goroutine closes the IO context. Whatever those Post calls return,
+// none of them panics or blocks, and (race-detector build) nothing Close does conflicts with what Post reads.
+func postWhileClosingIO(rounds int) (bool, string) {
+	for r := 0; r < rounds; r++ {
+		result := make(chan string, 1)
+		go func() {
+			runtime.LockOSThread()
+			defer runtime.UnlockOSThread()
+			ioc, err := sonic.NewIO()
+			if err != nil {
+				result <- "newio"
+				return
+			}
+			var stop int32
+			var wg sync.WaitGroup
+			panicked := int32(0)
+			for g := 0; g < 4; g++ {
+				wg.Add(1)
+				go func() {
+					defer wg.Done()
+					defer func() {
+						if p := recover(); p != nil {
+							atomic.StoreInt32(&panicked, 1)
+						}
+					}()
+					for atomic.LoadInt32(&stop) == 0 {
+						_ = ioc.Post(func() {})
+						runtime.Gosched()
+					}
+				}()
+			}
+			for i := 0; i < 20; i++ {
+				_, _ = ioc.PollOne()
+			}
+			_ = ioc.Close()
+			time.Sleep(time.Millisecond)
+			atomic.StoreInt32(&stop, 1)
+			done := make(chan struct{})
+			go func() { wg.Wait(); close(done) }()
+			select {
+			case <-done:
+			case <-time.After(5 * time.Second):
+				result <- "post-blocked-forever"
+				return
+			}
+			if atomic.LoadInt32(&panicked) != 0 {
+				result <- "post-panicked-while-closing"
+				return
+			}
+			result <- ""
+		}()
+		if why := <-result; why != "" {
+			return false, why
+		}
+	}
+	return true, ""
+}
+
 func postCloseWithQueued() (bool, string) {
 	result := make(chan string, 1)
 	go func() {
